@@ -194,6 +194,7 @@ def run(ctx, only=None):
     jobs = jobs_for(ctx, only)
     ctx.log(f'{sum(len(j["_cells"]) for j in jobs)} cells in {len(jobs)} jobs')
     total_traffic = 0
+    conf = dict(calls=0, mismatches=[], skipped=None)
     for job, res in zip(jobs, engine.run_jobs(jobs)):
         st = dict(numeric=job['_numeric'], cells=[c['id'] for c in job['_cells']][:3])
         if not res['gen']['ok']:
@@ -211,6 +212,10 @@ def run(ctx, only=None):
         ctx.validated_n(len(job['_cells']))
         ctx.evaluated(obs['calls'])
         total_traffic += obs['traffic']
+        c = obs.get('conformance') or {}
+        conf['calls'] += c.get('calls') or 0
+        conf['mismatches'] += c.get('mismatches') or []
+        conf['skipped'] = conf['skipped'] or c.get('skipped')
         for k in obs['nontrivial']:
             ctx.nontrivial_case(f'{job["_numeric"]}|{k}')
         for k, v in obs['outcomes'].items():
@@ -226,6 +231,9 @@ def run(ctx, only=None):
     if not only and total_traffic < 5000 and not ctx.violations:
         raise HarnessError(f'C04 exploration collapsed: {total_traffic} HTTP requests observed')
     ctx.extra['http_requests_observed'] = total_traffic
+    ctx.extra['seam_conformance'] = dict(calls_through_real_http_server=conf['calls'], mismatches=len(conf['mismatches']), skipped=conf['skipped'])
+    if conf['mismatches'] and not ctx.violations:
+        raise HarnessError(f'C04 seam conformance: HTTP seam and real loopback server disagree: {conf["mismatches"][:3]}')
     ctx.extra['bound'] = 'verb x path x body complete; valuations: path palette x {none, singles, pairs, all} of the other fields'
     ctx.assume('an empty-but-present singular sub-message is not distinguishable from an absent one in a URL; both sides are normalised')
 
